@@ -340,6 +340,47 @@ def run(chk):
         return True, "", out
     chk.ob("C19.R4:owned-copies", "owned/shared copies are the bag's structural to_owned/to_shared", owned_conversions)
 
+    def eval_hooks_accumulates():
+        """Stacked attributes (`#[emit::as_debug] #[emit::key("k")] x`) are applied one after another: each hook evaluator receives the
+        tokens the previous one produced (a loop-carried accumulator), and what eval_hooks returns is that accumulator."""
+        if not P.has_body("emit_macros::hook::eval_hooks"):
+            raise mir.AnchorMissing("emit_macros::hook::eval_hooks")
+        b = P.body("emit_macros::hook::eval_hooks")
+        ev = [c for c in b.calls(normal_only=True) if c.callee.get("name") in ("call", "call_mut", "call_once") and b.in_cycle(c.bb)
+              and mir.o_is_call(mir.o_root(b.origin(c.args[0])), name="get")]
+        if len(ev) != 1:
+            return False, "expected one evaluator call inside the attribute loop of eval_hooks, found %d" % len(ev), [], b.span
+        c = ev[0]
+        tup = b.origin(c.args[1])
+        if not (tup[0] == "agg" and len(tup[2]) == 2):
+            return False, "the evaluator's arguments are %s" % o_str(tup), [], c.loc
+        acc = tup[2][1]
+
+        def carried(o, d=0):
+            """does the origin include (the success payload of) this very call - i.e. the previous iteration's output?"""
+            if d > 12:
+                return False
+            if o[0] == "phi":
+                return any(carried(x, d + 1) for x in o[1])
+            if o[0] in ("field", "downcast", "ref", "deref", "copy"):
+                return carried(o[1], d + 1)
+            if o[0] == "call":
+                if o[1].bb == c.bb:
+                    return True
+                if o[1].callee.get("name") in ("branch", "clone", "into", "from") and o[1].args:
+                    return carried(b.origin(o[1].args[0]), d + 1)
+            return False
+        if not carried(acc):
+            return False, ("each hook is evaluated on %s, not on the output of the hook before it: with two emit attributes on one "
+                           "value only the last one takes effect (`#[emit::as_debug] #[emit::key(..)] x` loses the debug capture)"
+                           % o_str(acc)[:160]), [], c.loc
+        # the tokens returned are the accumulator
+        tt = [x for x in b.calls(normal_only=True) if x.callee.get("name") == "to_tokens" and not b.in_cycle(x.bb) and carried(b.origin(x.args[0]))]
+        if not tt:
+            return False, "eval_hooks does not return the accumulated tokens", [], b.span
+        return True, "", [c.loc, tt[0].loc]
+    chk.ob("C19.R2:stacked-attributes", "stacked capture/key/optional attributes compose: each evaluator gets the previous one's output", eval_hooks_accumulates)
+
     def dyn_to_value():
         """A trait object captured as a value keeps its own mode: `dyn Error` stays an error (source chain), `dyn Debug` debug,
         `dyn Display` display.  The bag constructor is named after the object's trait."""
